@@ -172,4 +172,223 @@ theorem src_gen_html_tag_treeC11 (h : HTMLDocument_gen_html_tag_treeC11_availabl
           rw [hg]
           simp only [Doc.wrapHtml, tagInitAttrs]
           gen_tree_tailC11)
+
+/-! ### `Tag.insert`, `Tag.extend`, `Tag.append`
+
+Stated at the level of Python values (`tagObjC11`: any instance with the four fields of a Tag), for arguments that are
+**already normalised** children — a plain tag node or a TagList of such (`kidItemsC11`).  `_partial`: what is missing is the
+normalisation of other children (None is dropped, numbers become strings, nested lists / tuples are flattened, anything
+else is a TypeError), which is the subject of `src_TagList_insert / _extend / _append` (Props/SrcC14.lean) on that area's
+own embedding of the arguments. -/
+
+theorem src_Tag_insertC11_partial (h : Tag_insertC11_available = true) (hc : CalleesC11) (G : Globals) (fuel : Nat)
+    (n a w : PVal) (ds : List PVal) (i : Int) (x : PVal) (hx : (kidItemsC11 x).isSome = true) :
+    Tag_insertC11 G (fuel + 6) (tagObjC11 n a ds w) (.int i) x
+      = .ok (tagObjC11 n a (ds.take (HtmlVerif.clampIdx ds.length i) ++ kidFlatC11 x ++ ds.drop (HtmlVerif.clampIdx ds.length i)) w) := by
+  first
+  | exact absurd h (by decide)
+  | rw [Tag_insertC11]
+    simp only [pure_eq_ok, ok_bind, getattr_childrenC11, recv_taglistC11,
+      TagList_insert_kidC11 hc.insert hc.tagchilds hc.flatten hc.recurse hc.isnode G fuel ds i x hx, setattr_childrenC11]
+
+theorem src_Tag_extendC11_partial (h : Tag_extendC11_available = true) (hc : CalleesC11) (G : Globals) (fuel : Nat)
+    (n a w : PVal) (ds : List PVal) (X : PVal) (xs : List PVal) (hX : pyIter X = .ok xs) (hs : isInstance X ["str"] = false)
+    (hp : ∀ x ∈ xs, (kidItemsC11 x).isSome = true) :
+    Tag_extendC11 G (fuel + 6) (tagObjC11 n a ds w) X = .ok (tagObjC11 n a (ds ++ xs.flatMap kidFlatC11) w) := by
+  first
+  | exact absurd h (by decide)
+  | rw [Tag_extendC11]
+    simp only [pure_eq_ok, ok_bind, getattr_childrenC11, recv_taglistC11,
+      TagList_extend_kidsC11 hc.extend hc.tagchilds hc.flatten hc.recurse hc.isnode G fuel ds X xs hX hs hp, setattr_childrenC11]
+
+theorem src_Tag_appendC11_partial (h : Tag_appendC11_available = true) (hc : CalleesC11) (G : Globals) (fuel : Nat)
+    (n a w : PVal) (ds : List PVal) (args : List PVal) (hp : ∀ x ∈ args, (kidItemsC11 x).isSome = true) :
+    Tag_appendC11 G (fuel + 7) (tagObjC11 n a ds w) (.tuple args)
+      = if args.isEmpty then .error .typeError else .ok (tagObjC11 n a (ds ++ args.flatMap kidFlatC11) w) := by
+  first
+  | exact absurd h (by decide)
+  | rw [Tag_appendC11]
+    cases args with
+    | nil => simp [getattr_childrenC11, recv_taglistC11, pyStarSplit1C11]
+    | cons x rest =>
+      have hsp : pyStarSplit1C11 (.tuple (x :: rest)) = .ok (x, .tuple rest) := rfl
+      simp only [pure_eq_ok, ok_bind, getattr_childrenC11, recv_taglistC11, hsp,
+        TagList_append_kidsC11 hc.append hc.extend hc.tagchilds hc.flatten hc.recurse hc.isnode G fuel ds x rest hp,
+        setattr_childrenC11, List.isEmpty_cons, Bool.false_eq_true, if_false]
+
+/-! ### `HTMLDocument._hoist_head_content` -/
+
+/-- `TagAttrDict(k=v)` for a plain string value under a name that normalisation leaves alone -/
+theorem tad_init_oneC11 (hi : TagAttrDict_initC11_available = true) (G : Globals) (cfg : Cfg) (hU : UpdateTieC11 G cfg)
+    (k v : Str) (hk : normAttrName k = k) (hs : (k == kSelfC11) = false) :
+    TagAttrDict_initC11 G (.dict []) (.tuple []) (.dict [(k, .str v)]) = .ok (.dict [(k, .str v)]) := by
+  have := src_TagAttrDict_initC11 hi G cfg hU [] [] [(k, .str v)]
+  have hav : kwAvoidsC11 [kSelfC11] [(k, AttrArg.str v)] = true := by
+    simp only [kwAvoidsC11, List.any_cons, List.any_nil, List.contains_cons, List.contains_nil, hs]; rfl
+  simp only [hav, if_true, embAttrs, embArgDict, List.map_cons, List.map_nil, embArg] at this
+  rw [this]
+  simp [attrsUpdate, accumDicts, accumPairs, normAttrValue, hk, alookup, HtmlVerif.dictSet, dictUpdate, embRes, embAttrs]
+
+set_option hygiene false in
+/-- everything after `head = cast(Tag, res.children[head_index])`: given `hget` / `hset` (reading and writing the place
+    `res.children[head_index]`), `hmodel` (the model's result in terms of `mapM depTags`) and `hfinal` (the value of the final
+    tree for any extra head content) -/
+local macro "hoist_restC11" : tactic => `(tactic| (
+  simp only [hget, pyCopy_tagObjC11, hset, setattr_childrenC11, getattr_childrenC11, recv_tagC11, hmeta, mkTag_nil'C11,
+    ok_bindC11, hIns _ _ _ _ _ (kidItems_tagObj_someC11 _ _ _ _), clampIdx_zeroC11, List.take_zero, List.drop_zero,
+    kidFlat_tagObjC11, List.nil_append, List.singleton_append, pyLenU_list'C11, pyGt_int'C11, truthy_boolC11,
+    List.length_map]
+  by_cases hde : ds = []
+  · subst hde
+    simp only [List.length_nil, List.map_nil, Int.natCast_zero, gt_iff_lt, Int.lt_irrefl, decide_false,
+      Bool.false_eq_true, if_false]
+    refine (comp_loop_simC11 [] (embT tv) (Doc.depTags cfg lp iv) (fun ns => tagListOf (embTs tv ns)) _ ?st _).trans ?fin
+    case st => intro d hd; simp at hd
+    case fin =>
+      rw [hmodel]
+      simp only [List.mapM_nil, pure, Except.pure, List.map_nil, hExt _ _ _ _ _ [] (pyIter_listC11 _)
+        (by simp [isInstance, builtinClasses]) (by simp), List.flatMap_nil, List.append_nil, ok_bindC11, embRes,
+        hfinal, Doc.listing, List.isEmpty_nil, if_true, concatNodesC11, embTs, embT_metaCharsetC11]
+      simp [embTs_appendC11, embTs]
+  · have hpos := len_posC11 ds hde
+    have hne : ds.isEmpty = false := by cases ds <;> simp_all
+    simp only [hpos, if_true]
+    refine comp_loop_kC11 ds (embT tv) (fun d => PVal.str (depListingC11 d)) _ ?stl _ _ ?kl
+    case stl =>
+      intro d hd s
+      have hdd := hdep d hd
+      cases d <;> simp [Node.isDep] at hdd
+      simp [embT, embDepFields, pyGetAttr, fieldGet?, pyStrC11, pyAdd_strC11, depListingC11, Node.depName,
+        depVersionC11, List.append_assoc]
+    case kl =>
+      have hmm : ds.map (fun d => PVal.str (depListingC11 d)) = (ds.map depListingC11).map PVal.str := by simp
+      simp only [hmm, pyJoin_strsC11, ok_bindC11, htype, mkTag_oneC11 _ _ _ _ (plain_strC11 _), hApp1]
+      refine (comp_loop_simC11 ds (embT tv) (Doc.depTags cfg lp iv) (fun ns => tagListOf (embTs tv ns)) _ ?st _).trans ?fin
+      case st =>
+        intro d hd s
+        rw [pyAsHtmlTags_depC11 G tv d (hdep d hd), hA d hd]
+        cases Doc.depTags cfg lp iv d <;> rfl
+      case fin =>
+        rw [hmodel]
+        cases List.mapM (Doc.depTags cfg lp iv) ds with
+        | error e => rfl
+        | ok vs =>
+          simp only [recv_tagC11, ok_bindC11, hExt _ _ _ _ _ _ (pyIter_listC11 _)
+            (by simp [isInstance, builtinClasses]) (kidItems_taglistsC11 tv vs), flat_taglistsC11, embRes, hfinal,
+            Doc.listing, hne, Bool.false_eq_true, if_false, ← listingText_eqC11 ds hdep, embT_metaCharsetC11]
+          simp [embTs_appendC11, embTs, embT_listingNodeC11]))
+
+/-- `HTMLDocument._hoist_head_content(x, lib_prefix, include_version)` as the source has it = `hoist`, for every tag `x`:
+    ValueError unless `x` is an `<html>` tag; the first direct `<head>` child (a new one inserted at index 0 if there is
+    none) is copied, `<meta charset="utf-8">` goes to its front, the listing script (iff there are dependencies) and the
+    tags of every resolved dependency, in order, to its end; the first failing `as_html_tags` propagates.
+    `hD`: the tie of `Tag.get_dependencies` on `x` (Props/SrcC10.lean).  `hA`: `as_html_tags` (not translated) answers, for
+    each resolved dependency, what the model's `depTags` says. -/
+theorem src_hoist_head_contentC11 (h : HTMLDocument_hoist_head_contentC11_available = true)
+    (hins : Tag_insertC11_available = true) (hext : Tag_extendC11_available = true) (happ : Tag_appendC11_available = true)
+    (hi : TagAttrDict_initC11_available = true) (hc : CalleesC11)
+    (G : Globals) (cfg : Cfg) (tv : Node → PVal) (hU : UpdateTieC11 G cfg) (fuel : Nat) (hfu : 7 ≤ fuel)
+    (n : Str) (w : Bool) (a : Attrs) (kids : Nodes) (lp : Option Str) (iv : Bool)
+    (hD : Tag_get_dependencies G fuel (embT tv (.tag n w a kids)) (.bool true)
+            = .ok (.list (((Node.tag n w a kids).getDeps true).map (embT tv))))
+    (hA : ∀ d ∈ (Node.tag n w a kids).getDeps true, G.asHtmlTagsC11 (embT tv d) (embLpC11 lp) (.bool iv)
+            = embRes (fun ns => tagListOf (embTs tv ns)) (Doc.depTags cfg lp iv d)) :
+    HTMLDocument_hoist_head_contentC11 G (fuel + 1) (embT tv (.tag n w a kids)) (embLpC11 lp) (.bool iv)
+      = embRes (embT tv) (Doc.hoist cfg (.tag n w a kids) lp iv) := by
+  first
+  | exact absurd h (by decide)
+  | skip
+  all_goals (
+    rw [HTMLDocument_hoist_head_contentC11]
+    have hname : pyGetAttr (embT tv (.tag n w a kids)) "name" = .ok (.str n) := getattr_nameC11 _ _ _ _
+    have hcp : pyCopy (embT tv (.tag n w a kids)) = .ok (embT tv (.tag n w a kids)) := by
+      simp [embT, pyCopy, fieldGet?]
+    have hcls : pyClassOf (embT tv (.tag n w a kids)) = "Tag" := rfl
+    have hdep := getDeps_isDepC11 n w a kids
+    generalize hds : (Node.tag n w a kids).getDeps true = ds at hD hA hdep
+    simp only [pure_eq_ok, ok_bind, hname, pyEq_strC11, truthy_bool, hcp, hcls, hD]
+    by_cases hn : n = Doc.nHtml
+    · have hn' : (n == ['h', 't', 'm', 'l']) = true := by subst hn; rfl
+      simp only [hn', Bool.not_true, Bool.false_eq_true, if_false]
+      rw [embT_tagC11]
+      simp only [getattr_childrenC11, ok_bindC11, pyEnumerate_tlC11, pyIter_listC11, embTs_toList]
+      refine head_loop_kC11 tv kids.toList 0 _ _ ?step _ _ ?k
+      case step =>
+        intro i c hcm s hs
+        obtain ⟨s1, s2, s3⟩ := s
+        simp only at hs; subst hs
+        simp only [pyUnpack2_tuple, ok_bind, isTag_embT, pyAnd_okC11, truthy_bool]
+        cases c with
+        | tag nm ws at' kk =>
+          have hnm : pyGetAttr (embT tv (.tag nm ws at' kk)) "name" = .ok (.str nm) := getattr_nameC11 _ _ _ _
+          simp only [Node.isTag, if_true, hnm, ok_bind, pyEq_strC11, truthy_bool, Doc.isTagNamed, Doc.nHead]
+          by_cases hh : (nm == ['h', 'e', 'a', 'd']) = true
+          · simp only [hh, if_true]; exact ⟨_, rfl, rfl⟩
+          · simp only [hh, Bool.false_eq_true, if_false]; exact ⟨_, rfl, rfl⟩
+        | _ => simp [Node.isTag, Doc.isTagNamed]
+      case k =>
+        intro s hs
+        simp only [Nat.zero_add, ← headIndex_findIdxC11] at hs
+        obtain ⟨f7, rfl⟩ : ∃ f7, fuel = f7 + 7 := ⟨fuel - 7, by omega⟩
+        have hIns := fun n a ds w x hx => src_Tag_insertC11_partial hins hc G (f7 + 1) n a w ds 0 x hx
+        have hApp := fun n a ds w args hp => src_Tag_appendC11_partial happ hc G f7 n a w ds args hp
+        have hExt := fun n a ds w X xs hX hs hp => src_Tag_extendC11_partial hext hc G (f7 + 1) n a w ds X xs hX hs hp
+        simp only [show f7 + 1 + 6 = f7 + 7 from rfl] at hIns hExt
+        have hmeta := tad_init_oneC11 hi G cfg hU kCharsetC11 vUtf8C11 (by rfl) (by rfl)
+        have htype := tad_init_oneC11 hi G cfg hU kTypeC11 vDepsTypeC11 (by rfl) (by rfl)
+        have hempty := tad_init_emptyC11 hi G cfg hU
+        simp only [kCharsetC11, vUtf8C11, kTypeC11, vDepsTypeC11] at hmeta htype
+        have hApp1 : ∀ (n a : PVal) (ds : List PVal) (w tn ta : PVal) (tk : List PVal) (tw : PVal),
+            Tag_appendC11 G (f7 + 7) (tagObjC11 n a ds w) (.tuple [tagObjC11 tn ta tk tw])
+              = .ok (tagObjC11 n a (ds ++ [tagObjC11 tn ta tk tw]) w) := by
+          intro n a ds w tn ta tk tw
+          rw [hApp n a ds w [tagObjC11 tn ta tk tw]
+            (by intro x hx; simp at hx; subst hx; exact kidItems_tagObj_someC11 _ _ _ _)]
+          simp [kidFlat_tagObjC11]
+        subst hn
+        have hmodel := hoist_modelC11 cfg w a kids lp iv
+        rw [hds] at hmodel
+        cases hhi : Doc.headIndex kids with
+        | none =>
+          rw [hhi] at hs hmodel
+          simp only [Option.getD_none] at hs hmodel
+          simp only [hs, isNone, if_true, hempty, mkTag_nil'C11, recv_tagC11, ok_bindC11,
+            hIns _ _ _ _ _ (kidItems_tagObj_someC11 _ _ _ _), clampIdx_zeroC11, List.take_zero, List.drop_zero,
+            kidFlat_tagObjC11, List.nil_append, List.singleton_append]
+          have hget : ∀ (c : PVal) (r : List PVal), pyGetItemU (tagListOf (c :: r)) (.int 0) = .ok c := pyGetItemU_headC11
+          have hset : ∀ (c v : PVal) (r : List PVal), pySetItemU (tagListOf (c :: r)) (.int 0) v = .ok (tagListOf (v :: r)) := by
+            intro c v r; exact pySetItemU_at [] c v r
+          have hfinal : ∀ (extra : Nodes),
+              embT tv (.tag Doc.nHtml w a (Doc.modifyAt (Doc.hoistHead extra) (Nodes.cons Doc.emptyHead kids) 0))
+                = tagObjC11 (.str Doc.nHtml) (embAttrs a)
+                    (tagObjC11 (.str ['h', 'e', 'a', 'd']) (.dict []) (embT tv Doc.metaCharset :: embTs tv extra) (.bool true)
+                      :: kids.toList.map (embT tv)) (.bool w) := by
+            intro extra
+            simp [Doc.modifyAt, Doc.hoistHead, Doc.emptyHead, embT_tagC11, embTs, embTs_toList, Doc.nHead, embAttrs,
+              Nodes.toList]
+          hoist_restC11
+        | some i =>
+          rw [hhi] at hs hmodel
+          simp only [Option.getD_some] at hs hmodel
+          obtain ⟨pre, hd, post, hsplit, hlen, hhd, _⟩ := headIndex_someC11 kids i hhi
+          cases hd <;> simp [Doc.isTagNamed] at hhd
+          rename_i hdn hw ha hk
+          simp only [hs, isNone, Bool.false_eq_true, if_false, hsplit, List.map_append, List.map_cons, embT_tagC11]
+          have hPl : (pre.map (embT tv)).length = i := by simpa using hlen
+          have hget : ∀ c, pyGetItemU (tagListOf (pre.map (embT tv) ++ c :: post.map (embT tv))) (.int (i : Nat)) = .ok c := by
+            intro c; have := pyGetItemU_at (pre.map (embT tv)) c (post.map (embT tv)); rwa [hPl] at this
+          have hset : ∀ c v, pySetItemU (tagListOf (pre.map (embT tv) ++ c :: post.map (embT tv))) (.int (i : Nat)) v
+              = .ok (tagListOf (pre.map (embT tv) ++ v :: post.map (embT tv))) := by
+            intro c v; have := pySetItemU_at (pre.map (embT tv)) c v (post.map (embT tv)); rwa [hPl] at this
+          have hfinal : ∀ (extra : Nodes),
+              embT tv (.tag Doc.nHtml w a (Doc.modifyAt (Doc.hoistHead extra) kids i))
+                = tagObjC11 (.str Doc.nHtml) (embAttrs a)
+                    (pre.map (embT tv) ++ tagObjC11 (.str hdn) (embAttrs ha)
+                      (embT tv Doc.metaCharset :: (embTs tv hk ++ embTs tv extra)) (.bool hw) :: post.map (embT tv)) (.bool w) := by
+            intro extra
+            rw [embT_tagC11, embTs_toList, ← hlen, modifyAt_splitC11 _ kids pre _ post hsplit]
+            simp [Doc.hoistHead, embT_tagC11, embTs, embTs_appendC11]
+          hoist_restC11
+    · have hn' : (n == ['h', 't', 'm', 'l']) = false := by simpa [Doc.nHtml] using hn
+      simp [hn', Doc.hoist, hn, embRes, embErr])
 end HtmlVerif.SrcTie
